@@ -57,6 +57,7 @@ def check(ctx):
     ctx.rule("R2", "offsets are character counts used as byte offsets: no json.dumps in the writer may emit non-ASCII (ensure_ascii=False)", floor=3)
     ctx.rule("R3", "in-memory counters move together: append grows buffer and _len on the same paths; every filtered command in the flusher is accounted by skip(1); flush snapshots the buffer before resetting it", floor=5)
     ctx.rule("R4", "FIFO ticket protocol: every queue.append(self) is followed on every normal path by wait_for(front) .. popleft() .. notify_all() under the condition; the front test compares with queue[0]", floor=6)
+    ctx.rule("R6", "a read is served from the in-memory tail or from the file opened under the reader's own ticket; per-history state it is served from otherwise (a read cache) is dropped by every method that rewrites the history file", floor=3)
     ctx.rule("R5", "one history entry per executed command: every exit of BaseShell.default after run_compiled_code passes _append_history exactly once", floor=2)
 
     lj = ctx.repo.module(LJ)
@@ -296,6 +297,109 @@ def check(ctx):
     ok = sum(1 for c in calls_in(ah) if isinstance(c.func, ast.Attribute) and c.func.attr == "append" and unparse(c.func.value) in HIST) == 1
     ctx.ob("R5", f"{BS}:BaseShell._append_history", "appends exactly one entry to the history backend", ok, key="append_history|count")
 
+    _read_provenance(ctx)
+
+
+def _read_provenance(ctx):
+    hj = ctx.repo.module(HJ)
+    gi = hj.func("JsonCommandField.__getitem__")
+    st = f"{HJ}:JsonCommandField.__getitem__"
+    defs = df.all_defs(gi)
+    # the history object as the field sees it: the receiver whose `.buffer` it reads
+    bufs = [n for n in walk_local(gi) if isinstance(n, ast.Attribute) and n.attr == "buffer"]
+    if not bufs:
+        raise AnchorMissing(f"{st}: read of the history's buffer")
+    hist_expr = unparse(bufs[0].value)
+    # the in-memory part of the history: what JsonHistory.append grows
+    ap = hj.func("JsonHistory.append")
+    mem_attrs = {t.attr for n in walk_local(ap) for t in ((n.targets if isinstance(n, ast.Assign) else [n.target]) if isinstance(n, (ast.Assign, ast.AugAssign)) else []) if isinstance(t, ast.Attribute) and unparse(t.value) == "self"}
+    mem_attrs |= {c.func.value.attr for c in calls_in(ap) if isinstance(c.func, ast.Attribute) and c.func.attr == "append" and isinstance(c.func.value, ast.Attribute) and unparse(c.func.value.value) == "self"}
+    if "buffer" not in mem_attrs:
+        raise AnchorMissing(f"{HJ}:JsonHistory.append: does not grow self.buffer")
+
+    def roots(e, seen):
+        out = set()
+        if e is None or isinstance(e, ast.Constant):
+            return out
+        if isinstance(e, ast.Attribute):
+            base = unparse(e.value)
+            if base in ("self", hist_expr):
+                return {(base, e.attr)}
+            return roots(e.value, seen)
+        if isinstance(e, ast.Name):
+            if e.id in seen:
+                return out
+            seen = seen | {e.id}
+            for d in defs.get(e.id, []):
+                if d.kind == "with":
+                    out.add(("file", short(d.value, 40) if d.value is not None else e.id))
+                elif d.kind == "param":
+                    continue
+                elif d.kind == "for":
+                    out |= roots(getattr(d.stmt, "iter", None), seen)
+                elif d.value is not None:
+                    out |= roots(d.value, seen)
+            return out
+        if isinstance(e, ast.Call):
+            if isinstance(e.func, ast.Attribute):
+                out |= roots(e.func.value, seen)
+            for a in e.args:
+                out |= roots(a, seen)
+            return out
+        if isinstance(e, (ast.ListComp, ast.SetComp, ast.GeneratorExp)):
+            out |= roots(e.elt, seen)
+            for g in e.generators:
+                out |= roots(g.iter, seen)
+            return out
+        for c in ast.iter_child_nodes(e):
+            if isinstance(c, ast.expr):
+                out |= roots(c, seen)
+        return out
+
+    # attributes written outside constructors anywhere in the module (a constructor-only attribute is configuration, not a cache)
+    written = {}
+    for q, fn in hj.functions():
+        if q.endswith("__init__"):
+            continue
+        for n in walk_local(fn):
+            tg = n.targets if isinstance(n, ast.Assign) else ([n.target] if isinstance(n, (ast.AugAssign, ast.AnnAssign)) else [])
+            for t in tg:
+                if isinstance(t, ast.Attribute):
+                    written.setdefault(t.attr, []).append((q, n))
+    rets = [n for n in walk_local(gi) if isinstance(n, ast.Return) and n.value is not None]
+    memos = {}
+    for r in rets:
+        rs = roots(r.value, frozenset())
+        cache = sorted({a for b, a in rs if b in ("self", hist_expr) and a in written and not (b == hist_expr and a in mem_attrs)})
+        for a in cache:
+            memos.setdefault(a, []).append(r)
+        ctx.ob("R6", st, f"`{short(r, 50)}` is served from {sorted(b + '.' + a if b != 'file' else 'the file opened in this call' for b, a in rs) or ['a constant']}", True, key=f"getitem|provenance|{short(r, 40)}", where=loc(r))
+    if len(rets) < 3:
+        raise AnalysisError(f"{st}: only {len(rets)} value returns found")
+    # every read cache must be dropped by every method of the history / its flusher that rewrites the file
+    # (a method rewrites a file when it calls the dumper itself or through helpers of this module)
+    dumping = {q for q, fn in hj.functions() if any((call_name(c) or "").endswith("ljdump") for c in calls_in(fn))}
+    for _ in range(4):
+        for q, fn in hj.functions():
+            if q not in dumping and any((call_name(c) or "").split(".")[-1] in {d.split(".")[-1] for d in dumping} and ((call_name(c) or "") in dumping or (call_name(c) or "").startswith("self.")) for c in calls_in(fn)):
+                dumping.add(q)
+
+    def is_write(m):
+        return any((call_name(c) or "").endswith("ljdump") or (call_name(c) or "") in dumping or ((call_name(c) or "").startswith("self.") and any(d.endswith("." + (call_name(c) or "")[5:]) for d in dumping)) for c in calls_in(m.ast))
+
+    writers = [(q, fn) for q, fn in hj.functions() if (q.startswith("JsonHistory.") or q.startswith("JsonHistoryFlusher.")) and not q.endswith("__init__") and q in dumping]
+    if memos and len(writers) < 3:
+        raise AnalysisError(f"{HJ}: only {len(writers)} methods that rewrite history files found")
+    for a, rs_ in memos.items():
+        for q, fn in writers:
+            cfg = CFG(fn)
+            inval = [m for m in cfg.nodes if m.kind == "stmt" and ((isinstance(m.ast, ast.Assign) and any(isinstance(t, ast.Attribute) and t.attr == a for t in m.ast.targets) and (const_value(m.ast.value, 0) is None or (isinstance(m.ast.value, (ast.List, ast.Dict, ast.Tuple)) and not getattr(m.ast.value, "elts", getattr(m.ast.value, "keys", None))))) or (isinstance(m.ast, ast.Delete) and any(isinstance(t, ast.Attribute) and t.attr == a for t in m.ast.targets)))]
+            wr = [m for m in cfg.nodes if m.kind == "stmt" and is_write(m)]
+            ok = bool(inval)
+            if ok:
+                ok = all(cfg.dominated(w, lambda m: m in inval) for w in wr) or cfg.must_pass(wr, lambda m: m in inval, exits=("exit",))[0]
+            ctx.ob("R6", f"{HJ}:{q}", f"rewrites a history file and drops the read cache `{a}` (served by `{short(rs_[0], 40)}`) on every normal path", ok, key=f"{q}|read-cache-not-dropped|{a}", where=loc(fn))
+
 
 META = {
     "technique": "static analysis: format-string layout arithmetic (string.Formatter) against writer/reader constants, literal-length vs offset-increment pairing, CFG must-pass-through for counters, the ticket protocol and the history append",
@@ -306,8 +410,9 @@ META = {
     "valid byte offsets for any Unicode content; buffer.append and _len += 1 are on the same paths, every filtered "
     "command is accounted by skip(1), flush snapshots before reset; each ticket in the FIFO queue is waited for, "
     "popped and followed by notify_all under the condition (a missing notify was found and repaired); every exit "
-    "of BaseShell.default after run_compiled_code passes _append_history exactly once. Orderings under all "
+    "of BaseShell.default after run_compiled_code passes _append_history exactly once; every value a read returns comes from the in-memory tail or the file opened under the reader's own ticket, and a read cache kept on the history must be dropped by every method that rewrites the file. Orderings under all "
     "schedules and value-level len/index consistency are not decided.",
     "note": "Decides the listed structural clauses, not the behaviour. Assumes location fields stay below 10 digits "
     "(fixed-width fields).",
+    "more": "Also decided: every value a read returns is rooted in the in-memory tail or the file opened under the reader's own ticket; a read cache on the history object must be dropped by every method that rewrites a history file.",
 }
